@@ -759,6 +759,27 @@ func (c *leafCtx) stmt7(s ast.Stmt, next func(string) string, ind string) string
 				return c.copy7(ce, next, ind)
 			}
 		}
+		if f, ok := ce.Fun.(*ast.SelectorExpr); ok && f.Sel.Name == "PutUint16" && len(ce.Args) == 2 { // binary.BigEndian.PutUint16(b[k:], v)
+			if inner, ok := f.X.(*ast.SelectorExpr); ok && inner.Sel.Name == "BigEndian" {
+				if pk, ok := inner.X.(*ast.Ident); ok && pk.Name == "binary" {
+					se, isSl := ce.Args[0].(*ast.SliceExpr)
+					if isSl && se.High == nil && se.Max == nil && se.Low != nil {
+						if bid, isId := se.X.(*ast.Ident); isId && c.madeHere[bid.Name] && c.vars[bid.Name] == "L_UInt8" {
+							off, _ := c.expr(se.Low, "Int64")
+							v, vt := c.expr(ce.Args[1], "UInt16")
+							if vt != "UInt16" && vt != "" {
+								c.fail("PutUint16 of a %s", vt)
+							}
+							tmp := c.fresh("_s")
+							c.binds = append(c.binds, c.bindLine("(Go.putU16? "+c.lname(bid.Name)+" "+off+" "+v+")", tmp, "opt:slice"))
+							return c.takeBinds(ind) + c.letLine(c.lname(bid.Name), "L_UInt8", tmp) + nl + next(ind)
+						}
+					}
+					c.fail("PutUint16 on something other than a buffer made in this function")
+					return "0"
+				}
+			}
+		}
 		if isPkgCall(ce, "slices", "Sort") && len(ce.Args) == 1 {
 			if id, ok := ce.Args[0].(*ast.Ident); ok && c.vars[id.Name] == "L_Int64" {
 				return "let " + c.lname(id.Name) + " : (List Int64) := Go.sortI64 " + c.lname(id.Name) + nl + next(ind)
@@ -964,6 +985,14 @@ func (c *leafCtx) assign7(st *ast.AssignStmt, next func(string) string, ind stri
 		var name string
 		if st.Tok == token.DEFINE {
 			name = c.declare(id.Name, t)
+			if ce, isCall := rhs.(*ast.CallExpr); isCall {
+				if f, isId := ce.Fun.(*ast.Ident); isId && f.Name == "make" && t == "L_UInt8" {
+					if c.madeHere == nil {
+						c.madeHere = map[string]bool{}
+					}
+					c.madeHere[id.Name] = true // capacity = length: writes at an offset may be rendered on the list
+				}
+			}
 		} else {
 			if _, vis := c.vars[id.Name]; !vis {
 				c.fail("assignment to unknown variable %s", id.Name)
@@ -1479,6 +1508,31 @@ func (c *leafCtx) sliceArg(e ast.Expr) (ast.Expr, string, string, bool) {
 // copy7: copy(X[a:], Y[b:]) on capacity-modelled slices
 func (c *leafCtx) copy7(ce *ast.CallExpr, next func(string) string, ind string) string {
 	nl := "\n" + ind
+	{ // copy(b[k:], src) / copy(b, src) on a byte buffer made in this function
+		var bid *ast.Ident
+		off := "(0 : Int64)"
+		switch d := ce.Args[0].(type) {
+		case *ast.Ident:
+			bid = d
+		case *ast.SliceExpr:
+			if id, ok := d.X.(*ast.Ident); ok && d.High == nil && d.Max == nil && d.Low != nil {
+				bid = id
+			}
+		}
+		if bid != nil && c.madeHere[bid.Name] && c.vars[bid.Name] == "L_UInt8" {
+			if se, ok := ce.Args[0].(*ast.SliceExpr); ok {
+				off, _ = c.expr(se.Low, "Int64")
+			}
+			src, st := c.expr(ce.Args[1], "L_UInt8")
+			if st != "L_UInt8" {
+				c.fail("copy from something other than a byte slice")
+				return "0"
+			}
+			tmp := c.fresh("_s")
+			c.binds = append(c.binds, c.bindLine("(Go.copyL? "+c.lname(bid.Name)+" "+off+" "+src+")", tmp, "opt:slice"))
+			return c.takeBinds(ind) + c.letLine(c.lname(bid.Name), "L_UInt8", tmp) + nl + next(ind)
+		}
+	}
 	dx, da, dt, ok1 := c.sliceArg(ce.Args[0])
 	sx, sa, st, ok2 := c.sliceArg(ce.Args[1])
 	if !ok1 || !ok2 || dt != st {
@@ -1819,6 +1873,14 @@ func (c *leafCtx) expr7(e ast.Expr, want string) (string, string, bool) {
 					if v := c.ev.eval(x.Args[1], 0); v.Kind() != 0 && !c.mentionsVar(x.Args[1]) {
 						if n, err := strconv.Atoi(v.ExactString()); err == nil && n >= 0 {
 							return "(Go.makeBytes " + strconv.Itoa(n) + ")", "L_UInt8", true
+						}
+					}
+					if c.mentionsVar(x.Args[1]) { // run-time length: a negative one panics
+						n, nt := c.expr(x.Args[1], "Int64")
+						if nt == "Int64" {
+							v := c.fresh("_s")
+							c.binds = append(c.binds, c.bindLine("(Go.makeBytesN? "+n+")", v, "opt:makeslice"))
+							return v, "L_UInt8", true
 						}
 					}
 				}
@@ -2429,6 +2491,8 @@ var leaves7 = []leaf7Spec{
 	{"net/csptp", "EncodeResponseTLV", "csptp_EncodeResponseTLV", "LeafCsptp"},
 	{"net/csptp", "DecodeResponseTLV", "csptp_DecodeResponseTLV", "LeafCsptp"},
 	{"core/sync", "Run", "sync_Run_correction", "LeafSync"},
+	{"net/ntske", "ServerCookie.Encode", "ntske_ServerCookie_Encode", "LeafNtske"},
+	{"net/ntske", "EncryptedServerCookie.Encode", "ntske_EncryptedServerCookie_Encode", "LeafNtske"},
 }
 
 func emitLeaves7(repo string, parsed map[string][]*ast.File, fset *token.FileSet, leafPath string) {
